@@ -17,7 +17,7 @@ ENTRIES = {
              "triangle, sizes differ by <= 1, any covering family assembles to the symmetric zero-diagonal matrix of the metric, "
              "an incomplete family is refused; MSE metric symmetric / non-negative / zero on identical inputs for every expit. "
              "Tied to the code by running the extracted model and the real chunking / ChunkedDistanceMatrix save-load-concat-to_dense / "
-             "MSEDistance on the same generated cases. The generator lower_triangular_indices is re-translated from /repo's source on every run and proved to yield exactly lower_tri.",
+             "MSEDistance on the same generated cases. The generator lower_triangular_indices is re-translated from /repo's source on every run and proved to yield exactly lower_tri. ChunkedDistanceMatrix (__init__, add_value, combine, concat, is_complete, to_dense, save, load), get_lower_triangular_indices_chunk, calculate_pairwise_distance_matrix_on_predictions and MSEDistance.distance are re-translated whole and proved equal to the model through an explicit storage representation; the composed translations equal the model's pipeline.",
         note="Trusted: Coq kernel, extraction (ExtrOcamlBasic, ExtrOcamlZBigInt), OCaml driver, Python harness; h5py and numpy storage are modelled (identity round trip; zero-initialised slots abstracted); the CLI wrapper is not exercised."),
     "C15": dict(
         text="Theorems (all n >= 0, ALL k, all indices): the generator's product loop computes C(n,k); for 0 <= i < C(n,k) it returns "
@@ -26,7 +26,7 @@ ENTRIES = {
              "every subset is hit by exactly one index; the scorer's triples are distinct, in range and complete when max_combos >= C(n,3), "
              "for every rng.choice answer obeying numpy's contract. Tied to the code by exhaustive comparison for n <= 14 (k <= 4, plus "
              "k <= 7 small n, n <= 40 for k = 3), sampled ends/block boundaries/successors up to n = 5000 (20000 thorough), and the real "
-             "dbal_fast_gauss_scoring_vectorized with recording/adversarial rng.",
+             "dbal_fast_gauss_scoring_vectorized with recording/adversarial rng. In addition generate_combination_at_sorted_index is re-translated as ONE generator function (while loop on explicit fuel, checked // and %) and proved equal to the model's unrank with no fuel hypothesis on the property's domain.",
         note="Trusted: Coq kernel, extraction, OCaml driver, harness; Python int semantics = Z (// and % floor); rng.choice(replace=False) "
              "contract and scipy comb(exact) are assumed and checked on every recorded call; n < 0 is outside the quantifier (Python may not "
              "terminate, model uses fuel); score arithmetic after triple formation is C05's."),
@@ -52,7 +52,7 @@ ENTRIES = {
              "summed declared size; evaluate_model's chain ids label each column with the chain its sample came from on complete chains and "
              "partial chains are refused; add beyond declared / get out of range / save empty / concat of nothing are Err. Tied to the code by "
              "running the extracted model and the real ThetaHolder save_h5/load_h5/concat/add/get and evaluate_model.main() on the same cases, "
-             "compared bit-for-bit. In addition the ThetaHolder methods __init__, n_thetas, get_theta, add_theta, is_complete, combine, concat, load_h5 and save_h5 are re-translated from /repo's source into Gallina on every run and C10_model_is_source_* prove the model equal to the translations (h5py calls are declared primitives).",
+             "compared bit-for-bit. In addition the ThetaHolder methods __init__, n_thetas, get_theta, add_theta, is_complete, combine, concat, load_h5 and save_h5 are re-translated from /repo's source into Gallina on every run and C10_model_is_source_* prove the model equal to the translations (h5py calls are declared primitives). evaluate_model.main is re-translated too (chain ids from the per-file declared sizes in argument order).",
         note="Trusted: Coq kernel, extraction, OCaml driver, Python harness; HDF5/h5py storage and from_dicts are modelled as identity on "
              "(private, shared) and checked bitwise per case; shared parameters are taken from sample 0 (holders mixing different single-effect "
              "tables are characterised by C10_load_save_general, not counted as violations unless VERIF_C10_STRICT_SHARED=1: the shipped model "
@@ -91,7 +91,7 @@ ENTRIES = {
              "model trains on exactly the observed rows without a control id and builds its single-effect table from observed rows only. The "
              "pre-repair logic is kept as model switches and refuted with three vm_compute witnesses. Tied to the code by relational cases "
              "through the real Screen, both models, seeded sampler, all distance / score chunks, select_next_plate and train_model.main, two runs "
-             "compared bit for bit and with the extracted model. In addition BayesianModel.add_observations, SparseDrugCombo._add_observations, the legacy _update (with the invariant that its index dictionaries are the positions of each id after any number of calls), SparseDrugComboInteraction._add_observations and create_single_treatment_effect_map are re-translated from /repo's source on every run and C04_model_is_source_* prove the model equal to the translations; the translation determines the interaction model's repair switches.",
+             "compared bit for bit and with the extracted model. In addition BayesianModel.add_observations, SparseDrugCombo._add_observations, the legacy _update (with the invariant that its index dictionaries are the positions of each id after any number of calls), SparseDrugComboInteraction._add_observations and create_single_treatment_effect_map are re-translated from /repo's source on every run and C04_model_is_source_* prove the model equal to the translations; the translation determines the interaction model's repair switches. train_model.main is re-translated too: the model is trained on subset_observed() of the loaded screen (C04_model_is_source_cli_train_model).",
         note="Trusted: Coq kernel, extraction, driver, harness; the float32 cast is data; downstream numerics are compared implementation-side "
              "only with a `.observations` read tripwire; fast_mvn's unseeded generator is replaced by a seeded one (C18's subject). The three "
              "interaction-model defects found here were repaired in /repo (fix: 49949ee); the harness probes which switch setting the code implements."),
@@ -116,7 +116,7 @@ ENTRIES = {
              "is scored on the first-occurrence-unique (by sample, treatments; screen storage order) union of its own and the batch plates' rows; "
              "after save/load/concat the selected plate is a candidate, allowed, of minimal score among allowed plates, ties resolved as numpy "
              "argmin; None iff nothing is allowed. Tied to the code by running the extracted model and the real Screen / score_chunk / "
-             "ChunkedScoresHolder save_h5-load_h5-concat / select_next_plate / both CLI main()s on the same generated cases. In addition select_next_plate, score_chunk and the ChunkedScoresHolder methods add_score / combine / concat / plate_id_with_minimum_score are re-translated from /repo's source into Gallina on every run (harness/py2gal.py) and C06_model_is_source_* prove the models equal to the translations for all inputs.",
+             "ChunkedScoresHolder save_h5-load_h5-concat / select_next_plate / both CLI main()s on the same generated cases. In addition select_next_plate, score_chunk and the ChunkedScoresHolder methods add_score / combine / concat / plate_id_with_minimum_score are re-translated from /repo's source into Gallina on every run (harness/py2gal.py) and C06_model_is_source_* prove the models equal to the translations for all inputs. select_next_plate.main and calculate_scores.main are re-translated too (C06_model_is_source_cli_*): the plate id, or -1 exactly when nothing is selectable, is what is written.",
         note="Trusted: Coq kernel, extraction, OCaml driver, Python harness. numpy/h5py storage is modelled (identity round trip; "
              "zero-initialised slots modelled explicitly). The scorer is a function returning one score per handed plate (DBAL scorer is C05); "
              "KPerSamplePlatePolicy is replayed as data (C16). A non-empty batch with no id in the screen makes the code raise (stated as a "
@@ -142,7 +142,7 @@ ENTRIES = {
              "answers, answers checked against the numpy contract). Defects are detected by the runtime part: every randomised operation and the "
              "four --seed CLIs are run twice with identically seeded generators under differently seeded global generators; outputs, request "
              "traces and global generator states are compared, and every numpy.random.<function> / argument-less default_rng() is trapped with its "
-             "batchie call site. For eight functions (RandomScorer.score, the two hold-outs, FixedSize / OptimalSize smoothers, PlatePermutation / SampleSegregating generators, the DBAL sub-sampling run) the tie is a theorem: the source is re-translated on every run into a program of the model's own resumption type, where a request can only come from a call on the function's own generator argument (anything else is refused), and proved equal to the hand-written program.",
+             "batchie call site. For eight functions (RandomScorer.score, the two hold-outs, FixedSize / OptimalSize smoothers, PlatePermutation / SampleSegregating generators, the DBAL sub-sampling run) the tie is a theorem: the source is re-translated on every run into a program of the model's own resumption type, where a request can only come from a call on the function's own generator argument (anything else is refused), and proved equal to the hand-written program. get_prng_from_seed_argument and calculate_scores.main are re-translated too: score_chunk receives the generator derived from --seed (C18_model_is_source_cli_*).",
         note="Absence of hidden state in the implementation is checked at run time on generated inputs, not proved (a pure model cannot exhibit "
              "hidden state). Trusted: Coq kernel, extraction, driver, mock patching + stack attribution, RecordingGenerator (self-tested same "
              "stream). Randomness bypassing numpy.random / python random is visible only through differing outputs. Known findings on the current "
@@ -169,7 +169,7 @@ ENTRIES = {
              "experiment-space sizes are frozen over every history on either half of any split; same name gives same id across stages. Refuted by "
              "vm_compute for the variant without mappings (the pre-repair code). The extracted model is compared after every operation with the "
              "real code on simulations prepared by the real hold-out (recorded rng), incl. h5py save/load and the reveal_plate CLI; the variant "
-             "the tree implements is detected from behaviour; the three former witnesses are corpus cases. The prepare_retrospective_simulation CLI main() is run in-process with random generator / smoother / initial-plate options and the training / test screens it writes must agree on every id (implementation-only predicate). C03_source_variant_unique: the translation of reveal_plates / mask_screen / unmask_screen (C12 link) determines which call sites pass the mappings on.",
+             "the tree implements is detected from behaviour; the three former witnesses are corpus cases. The prepare_retrospective_simulation CLI main() is run in-process with random generator / smoother / initial-plate options and the training / test screens it writes must agree on every id (implementation-only predicate). C03_source_variant_unique: the translation of reveal_plates / mask_screen / unmask_screen (C12 link) determines which call sites pass the mappings on. prepare_retrospective_simulation.main and reveal_plate.main are re-translated too (C03_model_is_source_cli_*): the order filter / initial plate or mask / generator / random reveal / smoother / hold-out last comes from the source.",
         note="Trusted: Coq kernel, extraction, OCaml driver, harness. HDF5 storage is modelled as the identity. The hold-out selection is recorded "
              "from the real rng. The renumbering defect found here (reveal/mask/unmask dropped the mappings) was repaired in /repo (fix: e414171). "
              "predict_stable is a corollary stated in prose (predictions index embeddings by id; C09 proves row-wise prediction)."),
@@ -183,7 +183,7 @@ ENTRIES = {
              "sweep order equals the call order read from the source on every run, duplicate-free and complete; get_model_state reproduces Mu and "
              "prec; the triangular solves give Q m = b and L^T(x-m) = z. Refuted and shown on the real code: a self-combination row leaves the "
              "cache stale. Tied to the code by running the extracted model per step function from the implementation's own pre-block state on 2-4 "
-             "samples, 2-5 treatments, D <= 3, 1-3 steps, with recorded draw stubs (one case in ten with a reset_model() between two sweeps), plus a numpy log-joint predicate. The horseshoe auxiliary blocks (phiaux, phi, etaaux, eta of _prec_V0/V2/V1_step) are proved to be the full conditionals of the complete joint (half-Cauchy scales in their gamma-mixture form, with the code's +1e-3 rate jitter as an explicit tilt).",
+             "samples, 2-5 treatments, D <= 3, 1-3 steps, with recorded draw stubs (one case in ten with a reset_model() between two sweeps), plus a numpy log-joint predicate. The horseshoe auxiliary blocks (phiaux, phi, etaaux, eta of _prec_V0/V2/V1_step) are proved to be the full conditionals of the complete joint (half-Cauchy scales in their gamma-mixture form, with the code's +1e-3 rate jitter as an explicit tilt). In addition mcmc_step and every block method of LegacySparseDrugComboImpl (get, _alpha_step, the precision blocks, _W0/_V0/_W/_V2/_V1_step with their try/except, _reconstruct_Mu, _update, encode_obs) are re-translated from /repo's source on every run into programs whose draw nodes are the np.random / sample_mvn_from_precision calls, and C08_model_is_source_* prove them equal, block by block, to the model's programs (same draw arguments, equal continuations for every drawn value).",
         note="Trusted: Coq kernel, extraction, OCaml driver (libm sqrt oracle), Python harness; numpy normal/gamma/cholesky assumed to do what "
              "their arguments name; float rounding abstracted (tolerance 1e-4*scale); default model options only; horseshoe phi/eta steps compared "
              "and predicate-checked but not proved; KNOWN FINDING self-combination-row-stale-cache (KNOWN_FINDINGS.json); with zero observations "
@@ -194,7 +194,7 @@ ENTRIES = {
              "OR (plate id in ids) with conditions, plates and value bits unchanged; unobserved-plate counter drops by exactly the number of "
              "distinct newly revealed plates; constructor mask rules; set_observed exactness; refusal of all-zero, empty, unknown-id and NaN "
              "selections; definedness when guards pass. Compared after every operation with the real code, including h5py save/load and the "
-             "reveal_plate and extract_screen_metadata CLIs. In addition reveal_plates, mask_screen, unmask_screen, Screen.set_observed and the observation-mask statements of Screen.__init__ are re-translated from /repo's source into Gallina on every run and C12_model_is_source_* prove the model equal to the translations.",
+             "reveal_plate and extract_screen_metadata CLIs. In addition reveal_plates, mask_screen, unmask_screen, Screen.set_observed and the observation-mask statements of Screen.__init__ are re-translated from /repo's source into Gallina on every run and C12_model_is_source_* prove the model equal to the translations. reveal_plate.main and extract_screen_metadata.main are re-translated too (C12_model_is_source_cli_*).",
         note="Trusted: Coq kernel, extraction, driver, harness. Observation values cross as float64 bit patterns. reveal_plates takes one screen and "
              "uses that screen's own plate ids. set_observed is outside the atomicity clause (it performs no plate check). Independent of sample "
              "and treatment ids."),
@@ -227,7 +227,7 @@ ENTRIES = {
              "optimal size, per-sample minimum (NPlatePerCellLine), merges within one sample, MergeMin stop rule, TopBottom halving, for all "
              "screens, parameters and oracle answers for which the operation returns. The pre-repair logic of the two classes found defective is "
              "kept behind a model switch and refuted by witnesses. SparseCover is proved to terminate for every contract-obeying answer stream within #samples + #distinct treatment ids draws; SampleSegregating plates of one sample differ in size by at most one; Pairwise single-agent rows join a combination plate of their own sample. Tied to the code by the same recorded-randomness correspondence as C11 plus "
-             "each shape clause evaluated on the real output.",
+             "each shape clause evaluated on the real output. Every shipped generator, smoother, the random hold-out, the SparseCover initial plate (while loop on fuel discharged by the termination theorem) and the combination filter are re-translated from /repo's source on every run and C13_model_is_source_* / C11_model_is_source_* prove the models equal to the translations.",
         note="Same trusted base as C11; heapq is modelled by its contract, not its array layout; no bound on SparseCover iterations is stated (the "
              "model recurses on the recorded answers). The two defects found here (SampleSegregating lumped small samples into plate ''; "
              "NPlatePerCellLine used stale sample ids) were repaired in /repo (fix: e3ac1df, fix: e05a1b9); the harness detects which variant "
